@@ -133,6 +133,12 @@ def spec_problems(canon, name):
             break
     if not canon.startswith(name + b" "):
         bad.append("name")
+    import re
+    if b"[" not in canon:   # inside [ ] the template prints fields with String()
+        for m in re.finditer(rb"%([A-Za-z_][A-Za-z0-9_]*)(?:\.([A-Za-z_][A-Za-z0-9_]*))?", canon):
+            if (m.group(2) or m.group(1))[:1].islower():
+                bad.append("bare-marker-on-lower-case-name")
+                break
     return bad
 
 
